@@ -20,14 +20,15 @@ try:
     assert rc == 0, o
     res["repo_head"] = run("git rev-parse --short HEAD", wt)[1].strip()
     demo_txt = open(os.path.join(src, "demo_path.txt")).read()
-    copies = re.findall(r"(\S+_test\.go)\s*->\s*(\S+)", demo_txt)
-    if not copies:
-        # free-form notes: the destination is the only repo-relative path ending in the test file's name
-        for f in sorted(os.listdir(src)):
-            if f.endswith("_test.go"):
-                m = re.search(r"(\S+/" + re.escape(f) + r")", demo_txt)
-                if m:
-                    copies.append((f, m.group(1)))
+    copies = []
+    for f in sorted(os.listdir(src)):
+        if not f.endswith("_test.go"):
+            continue
+        # the destination: a repo-relative path ending in the file's name (free-form notes)
+        cands = [m for m in re.findall(r"(\S*/" + re.escape(f) + r")", demo_txt) if not m.startswith("/tmp") and "/seeded" not in m]
+        cands = [re.sub(r"^(\S*>/|\./)", "", c) for c in cands]
+        if cands:
+            copies.append((f, cands[0]))
     cmds = [l[l.index("go test"):].strip() for l in demo_txt.splitlines() if "go test " in l]
     assert copies and cmds, "cannot parse demo_path.txt"
     cmd = cmds[0].replace(" -v ", " ")
